@@ -437,6 +437,18 @@ def f8(ctx):
                               '%s.__eq__ reads %s of `%s` but %s of `%s`: the comparison pairs different '
                               'fields (or tuples of different length, which are never equal)'
                               % (cname, sorted(sa_), ps[0], sorted(oa), ps[1]), mod.loc(eq))
+                # ... and says "equal" when they agree: a comparison of self.<x> with other.<x> is `==`
+                flipped = []
+                for c_ in ast.walk(eq):
+                    if isinstance(c_, ast.Compare) and len(c_.ops) == 1 and \
+                            isinstance(c_.ops[0], (ast.NotEq, ast.IsNot)):
+                        l_, r_ = src(c_.left), src(c_.comparators[0])
+                        if l_.replace(ps[0] + '.', '@.') == r_.replace(ps[1] + '.', '@.') and (ps[0] + '.') in l_:
+                            flipped.append(c_)
+                ctx.check('%s.%s/eq-means-equal' % (mname.split('.')[-1], cname), not flipped,
+                          '%s.__eq__ compares the fields of the two operands for equality' % cname,
+                          '%s.__eq__ contains `%s`: objects with equal fields compare unequal (and the object '
+                          'is not equal to itself)' % (cname, src(flipped[0]) if flipped else ''), mod.loc(eq))
     ctx.require(n >= 3, 'only %d classes with both __eq__ and __hash__' % n)
 
 
